@@ -242,4 +242,97 @@ def run {α} (s : Scope α) (ops : List (Op α)) : Scope α × List (Res α) :=
     let rr := run r.1 rest
     (rr.1, r.2 :: rr.2)
 
+/-! ## blocks and WHILE IN with a body
+
+  reference_scope.go: `Blocks[0]` is the innermost block; DECLARE adds to `Blocks[0]`; every other cursor
+  statement walks the blocks innermost-first and acts on the FIRST block that knows the name
+  (`errUndeclaredCursor` means "try the next block").  IF / WHILE bodies and function calls run in a child
+  scope with a fresh `Blocks[0]` (csvq is dynamically scoped: a function body sees the caller's blocks).
+
+  processor.go `WhileInCursor`: every iteration clears the loop's own block, then fetches NEXT **by name**
+  through the scope chain (`FetchCursor(ctx, childProc.ReferenceScope, stmt.Cursor, …)`), so whatever the
+  body did to the cursor — CLOSE, DISPOSE, a shadowing DECLARE in an inner block, DISPOSE of the shadowing
+  one, re-OPEN, FETCH — decides what the next iteration does: error, end, or going on over the cursor the
+  name denotes NOW.  An error in the body ends the whole program. -/
+
+abbrev Stack (α : Type) := List (Scope α)
+
+/-- the name a statement resolves through the scope chain (DECLARE always addresses `Blocks[0]`) -/
+def Op.chainKey {α} : Op α → Option String
+  | .dispose n | .open n _ | .close n | .fetch n _ | .isOpen n | .isInRange n | .count n | .whileIn n _ => some (key n)
+  | .declare _ | .fetchBad _ | .dml => none
+
+/-- innermost binding of a key -/
+def lookupS {α} (st : Stack α) (k : String) : Option (CState α) :=
+  match st with
+  | [] => none
+  | b :: rest =>
+    match lookup b k with
+    | some c => some c
+    | none => lookupS rest k
+
+/-- one statement on a block stack: it is `step` on the first block that knows the name -/
+def stepS {α} (st : Stack α) (op : Op α) : Stack α × Res α :=
+  match st with
+  | [] => ([], (step [] op).2)
+  | b :: rest =>
+    match op.chainKey with
+    | none => ((step b op).1 :: rest, (step b op).2)
+    | some k =>
+      match lookup b k with
+      | some _ => ((step b op).1 :: rest, (step b op).2)
+      | none => (b :: (stepS rest op).1, (stepS rest op).2)
+
+/-- statements of a loop body: a cursor statement, or a child block (`IF @n = k THEN … END IF` when
+    `guard = some k`, executed in iteration k only; `IF TRUE THEN … END IF` or a function call when
+    `guard = none`) -/
+inductive Item (α : Type)
+  | act (o : Op α)
+  | sub (guard : Option Nat) (ops : List (Op α))
+  deriving Repr
+
+/-- run statements up to and including the first error; `true`: an error ended the program -/
+def runOps {α} (st : Stack α) (ops : List (Op α)) : Stack α × List (Res α) × Bool :=
+  match ops with
+  | [] => (st, [], false)
+  | op :: rest =>
+    match stepS st op with
+    | (st', .err e) => (st', [.err e], true)
+    | (st', r) =>
+      let rr := runOps st' rest
+      (rr.1, r :: rr.2.1, rr.2.2)
+
+def runItem {α} (n : Nat) (st : Stack α) (it : Item α) : Stack α × List (Res α) × Bool :=
+  match it with
+  | .act o => runOps st [o]
+  | .sub g ops =>
+    match g with
+    | none => let r := runOps ([] :: st) ops; (r.1.tail, r.2.1, r.2.2)
+    | some k => if k = n then (let r := runOps ([] :: st) ops; (r.1.tail, r.2.1, r.2.2)) else (st, [], false)
+
+def runBody {α} (n : Nat) (st : Stack α) (items : List (Item α)) : Stack α × List (Res α) × Bool :=
+  match items with
+  | [] => (st, [], false)
+  | it :: rest =>
+    match runItem n st it with
+    | (st', rs, true) => (st', rs, true)
+    | (st', rs, false) =>
+      let rr := runBody n st' rest
+      (rr.1, rs ++ rr.2.1, rr.2.2)
+
+/-- WHILE … IN name DO body END WHILE, iteration counter `n` (1-based).  Result: the stack, the trace
+    (row handed to the body, results of the body's statements, …, final `none` or error) and whether the
+    loop ended by itself (`false`: `fuel` iterations were not enough). -/
+def loopS {α} : Nat → Nat → String → List (Item α) → Stack α → Stack α × List (Res α) × Bool
+  | 0, _, _, _, st => (st, [], false)
+  | fuel + 1, n, name, body, st =>
+    match stepS ([] :: st) (.fetch name .next) with
+    | (st1, .row r) =>
+      match runBody n st1 body with
+      | (st2, rs, true) => (st2.tail, .row r :: rs, true)
+      | (st2, rs, false) =>
+        let rr := loopS fuel (n + 1) name body st2.tail
+        (rr.1, .row r :: rs ++ rr.2.1, rr.2.2)
+    | (st1, r) => (st1.tail, [r], true)
+
 end Csvq.Cursor
